@@ -173,20 +173,91 @@ for _mean, _m, _mp in ((False, False, False), (True, False, False), (False, True
               "ensures": [x.replace("out[", "result[") for x in _rs_main("len(group_key)", _m, _mean)[3:5]]},
              specs=ROLL_SPECS, setup=_late_chunkval, props=("C09", "C06", "C05"), lemma_deps=("L-nncount", "L-cnt-bound"))
 
-# ----------------------------------------------------------------------------- min_or_max_and_position
+# ----------------------------------------------------------------------------- min_or_max_and_position and _rolling_max_or_min_1d
+# min_or_max_and_position: the result is null iff every entry is null; otherwise it IS an entry (witness: ghost slot gw) and bounds every non-null entry.
+# (The returned position is not specified: the kernel computes it off by one - enumerate(arr[i + 1:], i) - and its caller never uses it.)
 def _momp_contract(want_max):
     better = ">=" if want_max else "<="
     def char(b, n):
-        return (f"((isnullv({b}) and forall(l, 0, {n}, isnullv(arr[l]))) or (not isnullv({b}) and exists(l, 0, {n}, arr[l] == {b}) and "
+        return (f"((isnullv({b}) and forall(l, 0, {n}, isnullv(arr[l]))) or (not isnullv({b}) and 0 <= gw and gw < {n} and arr[gw] == {b} and "
                 f"forall(l, 0, {n}, implies(not isnullv(arr[l]), {b} {better} arr[l]))))")
-    return {"requires": ["len(arr) >= 1"], "frozen": ["arr"],
+    return {"requires": ["len(arr) >= 1"], "frozen": ["arr"], "ghost": {"gw": ("int", "0")},
+            "ghost_updates": [("after_assign(best)#0", "gw = i"), ("after_assign(best)#1", "gw = i + 1 + _it1")],
             "loops": {0: {"invariant": ["0 <= i and i <= len(arr) - 1", "forall(l, 0, i, isnullv(arr[l]))"], "decreases": "len(arr) - i"},
-                      1: {"iter": "enumerate(arr[i + 1:], i)", "invariant": ["0 <= i and i <= len(arr) - 1", "forall(l, 0, i, isnullv(arr[l]))", char("best", "(i + 1 + _it1)")]}},
-            "ensures": [char("result0", "len(arr)")]}
+                      1: {"iter": "enumerate(arr[i + 1:], i)", "ghost_modified": ["gw"], "invariant": ["0 <= i and i <= len(arr) - 1", "forall(l, 0, i, isnullv(arr[l]))", char("best", "(i + 1 + _it1)")]}},
+            "ensures": [char("result0", "len(arr)"), f"(isnullv(result0) and forall(l, 0, len(arr), isnullv(arr[l]))) or (not isnullv(result0) and exists(l, 0, len(arr), arr[l] == result0))"]}
+def _momp_callee(want_max):
+    k = _momp_contract(want_max)
+    return {"min_or_max_and_position": {"params": ["arr", "want_max"], "returns": ["float", "int"], "ghost_returns": {"gw": "int"}, "requires": k["requires"], "ensures": k["ensures"][:1]}}
 for _kind, _dt in (("float", "float64"), ("int", "int64")):
     for _wm in (True, False):
         register(NUMBA, "min_or_max_and_position", f"{_kind},want_max={_wm}", {"arr": f"arr:{_kind}:{_dt}", "want_max": f"const:{_wm}"}, _momp_contract(_wm),
                  specs={"isnullv": (lambda f: F.is_NaN(f)) if _kind == "float" else (lambda x: x == MIN_INT)}, props=("C09", "C12"))
+
+# _rolling_max_or_min_1d against the CONTRACT of min_or_max_and_position.  Ghost array wit[k]: the Hist index of group k's current best (skolemised witness).
+# Window of an accepted row: Hist(k, lo(A, w) .. A), A = accepted rows of k so far.  current_best[k] is an ELEMENT of the window (Hist(k, wit[k])) and bounds every
+# non-null element, whenever the window holds a non-null; it is null when it holds none.  Output = that extremum if at least min_periods are non-null, else null.
+def _rmm_contract(want_max, masked, mp):
+    acc = _roll_acc(masked); cmpop = "fge" if want_max else "fle"
+    def best_char(b, k, A, w_):       # b is the extremum of the non-null part of Hist(k, lo(A, w) .. A), witnessed at index w_
+        return (f"(lo({A}, window) <= {w_} and {w_} < {A} and not isnull(HistF({k}, {w_})) and {b} == HistF({k}, {w_}) and "
+                f"forall(t, lo({A}, window), {A}, implies(not isnull(HistF({k}, t)), {cmpop}({b}, HistF({k}, t)))))")
+    def main(m):
+        A = f"Cnt(k, {m})"; k_, A_, nn, _ = _win("r")
+        return [f"forall(k, 0, ngroups, {A} >= 0 and {A} <= {m} and 0 <= group_buffer_pos[k] and group_buffer_pos[k] < window and group_n_seen[k] == minw({A}, window) and implies({A} < window, group_buffer_pos[k] == {A}))",
+                f"forall(k, 0, ngroups, forall(j, 0, window, implies(idx(j, group_buffer_pos[k], {A}, window) >= 0, group_buffers[k, j] == HistF(k, idx(j, group_buffer_pos[k], {A}, window))) and implies(idx(j, group_buffer_pos[k], {A}, window) < 0, isnull(group_buffers[k, j]))))",
+                f"forall(k, 0, ngroups, group_non_null[k] == NNc(k, {A}) - NNc(k, lo({A}, window)) and group_non_null[k] >= 0)",
+                f"forall(k, 0, ngroups, implies(group_non_null[k] > 0, {best_char('current_best[k]', 'k', A, 'wit[k]')}) and implies(group_non_null[k] == 0, isnull(current_best[k])))",
+                f"forall(r, 0, {m}, implies(group_key[r] < 0 or not {acc('r')}, isnull(out[r])))",
+                f"forall(r, 0, {m}, implies(group_key[r] >= 0 and {acc('r')}, ite({nn} >= min_periods and {nn} > 0, {best_char('out[r]', k_, A_, 'owit[r]')}, isnull(out[r]))))",
+                f"forall(r, {m}, len(out), isnull(out[r]))"]
+    K = "group_key[i + 1]"; A = "Cnt(group_key[i + 1], i + 1)"; a = f"{K} >= 0 and {acc('i + 1')}"
+    def nnlink(Ax):     # L-nncount / L-nnzero (proved separately), instantiated at the current key for the window ending at Ax
+        d = f"NNc({K}, {Ax}) - NNc({K}, lo({Ax}, window))"
+        return [f"implies({a}, ({d} == 0) == forall(t, lo({Ax}, window), {Ax}, isnull(HistF({K}, t))))", f"implies({a}, 0 <= {d} and {d} <= {Ax} - lo({Ax}, window))"]
+    unf = _roll_unf(masked)[:2] + [
+        f"implies({a}, NNc({K}, {A} + 1) == NNc({K}, {A}) + nn1(HistF({K}, {A})))",
+        f"implies({a} and {A} >= window, NNc({K}, {A} - window + 1) == NNc({K}, {A} - window) + nn1(HistF({K}, {A} - window)))",
+        f"implies({a}, 0 <= NNc({K}, {A}) - NNc({K}, lo({A}, window)) and NNc({K}, {A}) - NNc({K}, lo({A}, window)) <= {A} - lo({A}, window))",
+        f"implies({a}, 0 <= NNc({K}, {A} + 1) - NNc({K}, lo({A} + 1, window)) and NNc({K}, {A} + 1) - NNc({K}, lo({A} + 1, window)) <= {A} + 1 - lo({A} + 1, window))",
+        f"implies({a} and {A} >= window, 0 <= NNc({K}, {A}) - NNc({K}, {A} - window + 1) and NNc({K}, {A}) - NNc({K}, {A} - window + 1) <= window - 1)"]
+    # the "count is zero iff the window is all null" instances (quantified) are needed only by the conjuncts about the extremum (6) and the output (8)
+    unf_scoped = [(h, [6, 8]) for h in (nnlink(A)[:1] + nnlink(f"({A} + 1)")[:1] + [
+        f"implies({a} and {A} >= window, (NNc({K}, {A}) - NNc({K}, {A} - window + 1) == 0) == forall(t, {A} - window + 1, {A}, isnull(HistF({K}, t))))"])]
+    # coverage lemmas, state right before the recompute call (the buffer already holds val at slot pos; the new window is [A + 1 - w, A + 1), A >= w)
+    POS2 = "nextpos(pos, window)"; AC = "Cnt(key, i)"          # at the call the row counter i has already been advanced: the row is i, A = Cnt(key, i) accepted rows before it
+    cov = ["(pos + 1) % window == nextpos(pos, window)",
+           # pure arithmetic about the lap layout (full window: A >= w, 0 <= pos < w): slot and idx are inverse; advancing the position keeps every surviving slot; the new row sits at pos
+           f"forall(t, {AC} - window, {AC}, 0 <= slot(t, pos, {AC}, window) and slot(t, pos, {AC}, window) < window and idx(slot(t, pos, {AC}, window), pos, {AC}, window) == t)",
+           f"forall(t, {AC} + 1 - window, {AC}, slot(t, {POS2}, {AC} + 1, window) == slot(t, pos, {AC}, window))", f"slot({AC}, {POS2}, {AC} + 1, window) == pos",
+           f"forall(j, 0, window, implies(j != pos, idx(j, {POS2}, {AC} + 1, window) == idx(j, pos, {AC}, window))) and idx(pos, {POS2}, {AC} + 1, window) == {AC}",
+           f"forall(t, {AC} + 1 - window, {AC} + 1, 0 <= slot(t, {POS2}, {AC} + 1, window) and slot(t, {POS2}, {AC} + 1, window) < window and group_buffers[key, slot(t, {POS2}, {AC} + 1, window)] == HistF(key, t), trigger=HistF(key, t))",
+           f"forall(j, 0, window, {AC} + 1 - window <= idx(j, {POS2}, {AC} + 1, window) and idx(j, {POS2}, {AC} + 1, window) < {AC} + 1 and group_buffers[key, j] == HistF(key, idx(j, {POS2}, {AC} + 1, window)), trigger=group_buffers[key, j])"]
+    inv0 = ["i == off(_it0) - 1", "_it0 <= len(values)"]; inv1 = ["i == off(_it0) + _it1 - 1", "_it0 < len(values)", "_it1 <= clen_values(_it0)"]
+    return {"requires": ["window >= 1", "ngroups >= 0", "isnull(null_value)"] + (["len(mask) == len(group_key)"] if masked else []) + _CHUNK_REQ + [
+                "forall(c, 0, len(values), forall(p, 0, clen_values(c), chunkval(c, p) == X(off(c) + p)))",
+                "forall(r, 0, len(group_key), group_key[r] < ngroups)", "forall(k, 0, ngroups, Cnt(k, 0) == 0 and NNc(k, 0) == 0)"],
+            "frozen": ["group_key"] + (["mask"] if masked else []), "nonneg_index": ["current_best", "pos_of_current_best", "group_buffers", "group_buffer_pos", "group_non_null", "group_n_seen"],
+            "ghost": {"wit": ("arr:int:ngroups", None), "owit": ("arr:int:len(group_key)", None)},
+            "ghost_updates": [("after_store(current_best)#0", "wit[key] = Cnt(key, i)"),
+                              ("after_store(current_best)#1", f"wit[key] = idx(callghost_gw, {POS2}, Cnt(key, i) + 1, window)"),
+                              ("after_store(out)", "owit[i] = wit[key]")],
+            "before_call": {"min_or_max_and_position": cov}, "call_facts_scope": {"min_or_max_and_position": [(1, 6), (1, 8)]},
+            # hypotheses scoped to where they are used: the extremum conjunct (loop0.5 / loop1.6) only for itself and the output conjunct; the output conjuncts only for themselves
+            "loops": {0: {"iter": "values", "ghost_arrays": ["wit", "owit"], "invariant": inv0 + main("(i + 1)"),
+                          "self_only": {5: [(0, 5), (0, 7), (1, 6), (1, 8)], 6: [(0, 6), (1, 7)], 7: [(0, 7), (1, 8)]}},
+                      1: {"iter": "arr", "ghost_arrays": ["wit", "owit"], "invariant": inv1 + main("(i + 1)"),
+                          "self_only": {6: [(0, 5), (0, 7), (1, 6), (1, 8)], 7: [(0, 6), (1, 7)], 8: [(0, 7), (1, 8)]},
+                          "unfold": unf, "unfold_scoped": unf_scoped, "lemmas": ["val == X(i + 1)"]}},
+            "ensures": [x.replace("out[", "result[") for x in main("len(group_key)")[4:6]]}
+_RMM_SPECS = dict(ROLL_SPECS); _RMM_SPECS.update({"nextpos": lambda pos, w: z3.If(pos + 1 >= w, 0, pos + 1), "slot": lambda t, pos, A, w: z3.If(t >= A - pos, t - (A - pos), t - (A - pos) + w),
+                                                  "fge": lambda a, b: f_cmp(lambda x, y: x >= y, a, b), "fle": lambda a, b: f_cmp(lambda x, y: x <= y, a, b), "isnullv": lambda f: F.is_NaN(f)})
+for _wm in (True, False):
+    for _m, _mp in ((False, False), (True, True)):
+        register(NUMBA, "_rolling_max_or_min_1d", f"float,chunked,mask={'bool' if _m else 'None'},{'max' if _wm else 'min'},min_periods={'int' if _mp else 'None'}",
+                 {"group_key": "arr:int:int64", "values": "chunks:float:float64", "ngroups": "int", "window": "int", "min_periods": "int" if _mp else "none", "mask": "arr:bool:bool" if _m else "none",
+                  "null_value": "float", "want_max": f"const:{_wm}"}, _rmm_contract(_wm, _m, _mp), specs=_RMM_SPECS, setup=_late_chunkval, callees=_momp_callee(_wm),
+                 props=("C09", "C06", "C05", "C12"), lemma_deps=("L-nncount", "L-nnzero", "L-cnt-bound"))
 
 # ----------------------------------------------------------------------------- EMA kernels (emas.py)
 # Specification (from the statement of C10, as the decayed-sum recursion; L-ema proves recursion == closed-form weighted mean):
